@@ -121,18 +121,9 @@ def run(check: core.Check) -> None:
     )
     judge(check, cases, "tlc-exhaustive")
     # 3. beyond: TLC simulation of longer files
-    num = 1500 if quick else 40000
-    sim = core.require_ok(
-        core.run_tlc("SuppressionEmit", "Suppression.sim.cfg", workers=1, simulate=f"num={num}", depth=14,
-                     seed=check.seed + 11, timeout=1800),
-        "Suppression simulate",
-    )
-    check.add_tlc("simulate:Suppression.sim.cfg", sim)
-    uniq = {core.canon(c): c for c in core.emitted_json(sim)}
-    check.cov["simulated_cases"] = len(uniq)
-    if len(uniq) < num // 4:
-        raise core.MachineryError(f"simulation produced only {len(uniq)} distinct cases")
-    judge(check, list(uniq.values()), "tlc-simulate")
+    sim_cases = core.simulate_cases("SuppressionEmit", "Suppression.sim.cfg", 1500 if quick else 40000, depth=14,
+                                    seed=check.seed + 11, check=check)
+    judge(check, sim_cases, "tlc-simulate")
 
 
 def replay(check: core.Check, witness: dict) -> None:
